@@ -14,7 +14,7 @@ the list of values it set (pending) and a log of what it learnt (envelope ID, qu
 maps).  It shares no state or function with the model (`Cell2v.SessionData`).
 
 Op lines (strings/keys as hex, values as `raw~nrm` tokens, see harness/c10):
-  reset | open f=F | close f=F n=N | req f=F n=N svc=T ntf=0|1 s=SCRIPT |
+  reset | open f=F | openreq f=F svc=T ntf=0|1 s=SCRIPT [cl=1] (connect while the front-end is busy, first message at once [and hang up]) | close f=F n=N | req f=F n=N svc=T ntf=0|1 s=SCRIPT |
   mk h=H at=SVC f=F n=N uid=HEX | on h=H s=SCRIPT | snap | topo m=SVC:STATE,… (members; the other services are not) |
   p.mkf f=F n=N | p.mkb h=H f=F n=N uid=HEX | p.on f=F n=N s=SCRIPT | p.on h=H s=SCRIPT | u.<anything>
   SCRIPT = statements separated by `;` :
@@ -243,6 +243,22 @@ def stepLine0 (d : DSt) (line : String) : DSt × String :=
             ({ d with st := r.st, gone := r.gone }, s!"r={showRs rs} " ++ (if live then s!"resp=ok relay={relayOf r.st c}" else "resp=gone relay=-"))
           | o => ({ d with st := r.st, gone := r.gone }, showObs o)
     | _, _ => (d, "bad-op")
+  | some "openreq" =>
+    -- the first message of a connection is handed over while the front-end has not yet registered it
+    match kv ws "f", kv ws "svc", kv ws "ntf", (kv ws "s").bind parseScript with
+    | some f, some t, some ntf, some sc =>
+      let cl := kv ws "cl" == some "1"
+      -- hanging up at once is only generated for front-local first messages (see harness)
+      if cl && cfg.typeOf (hexOfString f) != some t then (d, "bad-op") else
+      let r := stepOpenReq cfg (defaultRoute cfg d.view) s (hexOfString f) t (ntf == "1") sc cl
+      match r.2 with
+      | none => (d, showObs r.1.obs)
+      | some c =>
+        let extra := match r.1.obs with
+          | .ran _ _ _ resp => " relay=" ++ (if resp == .ok then relayOf r.1.st c else "-")
+          | _ => ""
+        ({ d with st := r.1.st, gone := r.1.gone }, s!"n{c.2} " ++ showObs r.1.obs ++ extra)
+    | _, _, _, _ => (d, "bad-op")
   | some w =>
     if w.startsWith "u." then (d, "unguarded")
     else match parseOp ws with
@@ -718,6 +734,33 @@ def specLine0 (sp : Spec) (line : String) : Spec × String :=
     | none => (sp, "bad-line")
   | _ => (sp, "bad-line")
 
+/-- `openreq` (the first message of a connection, handed over before the front-end has registered it): the
+property says what it says for `open` followed by `req` on the connection just opened — the connection gets the
+next id, and the message is a message of THAT connection (envelope, routing, the handler's session, the answer) -/
+def specLine1 (sp : Spec) (line : String) : Spec × String :=
+  match line.splitOn "\t" with
+  | [op, obs] =>
+    let ws := words op
+    if ws.head? == some "openreq" && !sp.off then
+      let f := (kv ws "f").getD ""
+      if !fronts.contains f || (kv ws "cl" == some "1" && typeOfSvc f != kv ws "svc") then (sp, "ok")
+      else
+        let ows := words obs
+        let (sp1, v1) := specLine0 sp (s!"open f={f}\t{ows.head?.getD ""}")
+        if v1 != "ok" then (sp1, v1)
+        else
+          let n := ((sp1.next.find? (·.1 == f)).map (·.2)).getD 0
+          -- `cl=1`: the client hung up right after its first message — the socket is closed, the connection is a
+          -- session until the end of the operation
+          let sp1 := if kv ws "cl" == some "1" then sp1.close (f, n) else sp1
+          let args := (ws.drop 1).filter fun t => !t.startsWith "f=" && !t.startsWith "n=" && !t.startsWith "cl="
+          let reqOp := s!"req f={f} n={n} " ++ " ".intercalate args
+          let r := specLine0 sp1 (reqOp ++ "\t" ++ " ".intercalate (ows.drop 1))
+          -- a violation names the operation as it was issued
+          (r.1, if r.2.startsWith "VIOLATION" then r.2.replace reqOp op else r.2)
+    else specLine0 sp line
+  | _ => specLine0 sp line
+
 /-- the end of the op: the queued removals run — every connection whose socket was closed during the op
 is handed to its close handler with its map AS OF NOW (everything merged until then), then it is gone -/
 def specLine (sp : Spec) (line : String) : Spec × String :=
@@ -726,7 +769,7 @@ def specLine (sp : Spec) (line : String) : Spec × String :=
     let (core, got) := match obs.splitOn " closed=" with
       | [a, b] => (a, b)
       | _ => (obs, "")
-    let (sp1, v) := specLine0 sp (op ++ "\t" ++ core)
+    let (sp1, v) := specLine1 sp (op ++ "\t" ++ core)
     let gone := sp1.closing.filterMap fun c => (sp1.conn c).map fun l => (s!"{c.1}#{c.2}", showSnapMap l)
     let want := "|".intercalate ((gone.foldr insertKey []).map fun e => e.1 ++ "=" ++ e.2)
     let sp2 := { sp1 with conns := sp1.conns.filter (fun e => !sp1.closing.contains e.1),
